@@ -125,6 +125,11 @@ func init() {
 		build: func(r *Result, vals map[string]string) (interface{}, bool) { return "fixed scenario", true }}
 	replayFamilies[modPath+".(*DB).ListIndexes"] = &replayFamily{pkgDir: ".", testFile: "clover_replay_test.go", testName: "TestVerifReplayListIndexesMissing",
 		build: func(r *Result, vals map[string]string) (interface{}, bool) { return "fixed scenario", true }}
+	lit := &replayFamily{pkgDir: "query", testFile: "query_replay_test.go", testName: "TestVerifReplayLiteralKinds",
+		build: func(r *Result, vals map[string]string) (interface{}, bool) { return "fixed scenario", true }}
+	replayFamilies[modPath+"/query.(*UnaryCriteria).eq"] = lit
+	replayFamilies[modPath+"/query.(*UnaryCriteria).in"] = lit
+	replayFamilies[modPath+"/query.(*UnaryCriteria).contains"] = lit
 	imp := &replayFamily{pkgDir: ".", testFile: "clover_replay_test.go", testName: "TestVerifReplayImport",
 		build: func(r *Result, vals map[string]string) (interface{}, bool) { return "fixed scenario", true }}
 	replayFamilies[modPath+".(*DB).ImportCollection"] = imp
